@@ -276,7 +276,9 @@ func (c *EvalCtx) call(x *ast.CallExpr) Term {
 		}
 		n := *c
 		n.st = c.loopSnap
+		mark := len(c.loopSnap.lines)
 		r := n.eval(x.Args[0])
+		c.st.mergeLines(c.loopSnap.lines[mark:])
 		c.side = append(c.side, n.side[len(c.side):]...)
 		return r
 	case "fresh":
@@ -353,6 +355,17 @@ func (c *EvalCtx) call(x *ast.CallExpr) Term {
 		}
 		body.Pat = pat.S
 		return body
+	case "store":
+		a, i, v := c.eval(x.Args[0]), c.eval(x.Args[1]), c.eval(x.Args[2])
+		return store(a, i, v)
+	case "preserved":
+		// preserved(pkg): every heap component of that package has its entry value at every reference that existed at entry
+		lit, ok := x.Args[0].(*ast.BasicLit)
+		if !ok {
+			c.fail("preserved(\"package/path\")")
+		}
+		pk, _ := strconv.Unquote(lit.Value)
+		return c.u.preservedTerm(c.st, []string{pk})
 	case "succeeds":
 		// succeeds(F, args...): the (last) error result of deterministic function F is nil
 		id, ok := x.Args[0].(*ast.Ident)
@@ -716,7 +729,23 @@ func (c *EvalCtx) fieldOfRef(r Term, structT types.Type, i int) Term {
 		return mkT(sr.S, SInt, refOf(ft))
 	}
 	comp, cs, _ := c.u.fieldComp(structT, i)
-	return c.u.loadLoc(c.st, Loc{Kind: 1, Comp: comp, CSort: cs, Ref: r, T: ft})
+	v := c.u.loadLoc(c.st, Loc{Kind: 1, Comp: comp, CSort: cs, Ref: r, T: ft})
+	c.closed(v, ft)
+	return v
+}
+
+// closed: a reference read from the heap in some state was allocated no later than that state
+// (added as a side fact when the term has no bound variable).
+func (c *EvalCtx) closed(v Term, t types.Type) {
+	if c.st == nil || c.st.scratch || c.mentionsBound(v) {
+		return
+	}
+	switch t.Underlying().(type) {
+	case *types.Pointer, *types.Map, *types.Chan:
+		c.side = append(c.side, le(app("own", SInt, v), c.st.alloc))
+	case *types.Slice:
+		c.side = append(c.side, le(app("own", SInt, app("sbase", SInt, v)), c.st.alloc))
+	}
 }
 
 func (c *EvalCtx) addrOf(e ast.Expr) Term {
